@@ -16,6 +16,8 @@ def play_games(args):
         root, moves = c["root"], c["moves"]
         if c.get("newgame"):
             s.send("ucinewgame")
+        if c.get("uci"):
+            s.send("uci")               # a GUI may repeat its greeting; whatever it resets, the next position command decides
         base = "position startpos" if root == START and c["use_startpos"] else "position fen " + root
         cmd = base + ((" moves " + " ".join(moves)) if moves else "")
         mark = len(s.lines)
@@ -75,7 +77,7 @@ def main():
                 for k in cut:
                     cases.append({"root": root, "moves": mv[:k], "want_fen": st[k]["fen"], "want_replies": sorted(st[k]["replies"]),
                                   "use_startpos": sp, "go": chk.rng.random() < 0.1 and len(st[k]["replies"]) > 0,
-                                  "newgame": chk.rng.random() < 0.2})
+                                  "newgame": chk.rng.random() < 0.2, "uci": chk.rng.random() < 0.08})
                     # a promotion taken back and replaced by another piece: same squares, another letter, then the game goes on
                     for a in (st[k].get("alts") or []):
                         cases.append({"root": root, "moves": mv[:k - 1] + [a["uci"]], "want_fen": a["fen"],
@@ -98,6 +100,35 @@ def main():
         cases.append({"root": d["root"], "moves": [d["move"]], "want_fen": d["want_fen"], "want_replies": sorted(d["want_replies"]),
                       "use_startpos": False, "go": False, "newgame": False})
         specials += 1
+    # one very long game (longer than any fixed-size history): played by the harness walk, every ply validated by
+    # Trace_Game (so the final FEN is the specification's), then sent to the binary as one position command
+    hb = vlib.build_harness("dev")
+    lw, lp = games.walk_traces(chk, events=0, files=1, label="walk_long", long=1100 if q else 2200, extra=("--nonull", 1))
+    rows = [e for e in vlib.read_ndjson(lp[0])]
+    if lw[0].viols("C02") or lw[0].viols("C01"):
+        raise vlib.ToolError("the long game itself is not played correctly (C01/C02 report it): %s" % (lw[0].viols("C02") + lw[0].viols("C01"))[0])
+    line, fens, peak = [], [], None
+    for e in rows:
+        if e["op"] == "load":
+            line, fens = [], [e["fen"]]
+        elif e["op"] == "make":
+            f, t, pr = e["mv"] % 64, (e["mv"] // 64) % 64, (e["mv"] // 4096) % 8
+            sq = lambda x: "abcdefgh"[x % 8] + str(x // 8 + 1)
+            line.append(sq(f) + sq(t) + {0: "", 2: "n", 3: "b", 4: "r", 5: "q"}[pr])
+            fens.append(e["fen"])
+            if peak is None or len(line) > len(peak[0]):
+                peak = (list(line), e["fen"], fens[0])
+        elif e["op"] == "undo":
+            # a dead end (mate, stalemate) is taken back and the game goes on; at the end everything is taken back
+            line.pop()
+            fens.pop()
+        else:
+            raise vlib.ToolError("unexpected operation %s in the long game" % e["op"])
+    if peak is None or len(peak[0]) < 500:
+        raise vlib.ToolError("long game too short: %s" % (peak and len(peak[0])))
+    n_long = len(peak[0])
+    cases.append({"root": peak[2], "moves": peak[0], "want_fen": peak[1], "want_replies": None, "use_startpos": False, "go": False,
+                  "newgame": False})
     # keep the cases of one game together and in order (growing move lists): contiguous chunks
     per = -(-len(cases) // 16)
     chunks = [cases[i:i + per] for i in range(0, len(cases), per)]
@@ -113,13 +144,14 @@ def main():
             if r["fen"] != r["want_fen"]:
                 chk.violation(w, "fen-after-position", {"got": r["fen"], "want": r["want_fen"]},
                               replay={"kind": "uci-position", "root": r["root"], "moves": r["moves"]})
-            if r["replies"] != r["want_replies"]:
+            if r["want_replies"] is not None and r["replies"] != r["want_replies"]:
                 chk.violation(w, "reply-set", {"got": r["replies"], "want": r["want_replies"]},
                               replay={"kind": "uci-position", "root": r["root"], "moves": r["moves"]})
-            if r["best"] is not None and r["best"] not in r["want_replies"]:
+            if r["best"] is not None and r["want_replies"] is not None and r["best"] not in r["want_replies"]:
                 chk.violation(w, "bestmove-not-a-reply", {"best": r["best"]}, replay={"kind": "uci-position", "root": r["root"], "moves": r["moves"]})
     if specials == 0 or n_cases == 0:
         raise vlib.ToolError("vacuous: no castling/en passant/promotion in the generated games")
+    chk.cov["long_game_plies"] = n_long
     chk.cov.update({
         "states": n_plies, "transitions": n_plies, "traces_validated_against_impl": n_cases,
         "evaluations": n_cases, "distinct_nontrivial": specials,
